@@ -432,3 +432,5 @@ var Prop = &fw.Prop{
 		"parentSlashInLastKey": lastElemSlashInKey,
 	},
 }
+
+func init() { fw.Register(Prop) }
